@@ -523,3 +523,199 @@ def corpus():
     add("eap-success", eth(0x888e, eapol(1, 0, eap(3, 5))))
     add("eap-failure", eth(0x888e, eapol(1, 0, eap(4, 5))))
     return F
+
+
+# ----------------------------------------------------------------------------- long frames made of MANY repeated small headers
+# Plain bytes (no marks: `cat` is quadratic in the nesting depth).  One builder per self-nesting construct of the library: label stacks, tag
+# stacks, extension-header chains, encapsulation (IP in GRE, Ethernet in VXLAN / GRE), ICMP / ICMPv6 error quoting, option / TLV / record /
+# entry lists, name-compression chains, and plain long payloads.  `n` = number of repeated units; nothing is capped here except the 16-bit
+# length fields (a frame longer than they can say is announced as 65535) — the caller picks n so that the frame fits a packet-in.
+_S = struct.pack
+JUMBO_MAX = 65000          # octets: what a packet-in can carry (65535 - 18) less room for the packet-out a handler makes of it
+
+
+def j_eth(typ, payload, dst=MAC_B, src=MAC_A): return dst + src + _S("!H", typ) + bytes(payload)
+
+
+def _s16(b):
+    """sum of the 16-bit words of b (odd length: padded with a zero octet), not folded"""
+    if len(b) % 2: b = b + b"\0"
+    return sum(struct.unpack("!%dH" % (len(b) // 2), b))
+
+
+def _fold(s):
+    while s >> 16: s = (s & 0xffff) + (s >> 16)
+    return (~s) & 0xffff
+
+
+def j_ip4(proto, payload, opts=b"", frag=0x4000):
+    hl = 5 + len(opts) // 4
+    h = _S("!BBHHHBBHII", 0x40 | hl, 0, min(65535, 20 + len(opts) + len(payload)), 0x1234, frag, 64, proto, 0, 0x0a010203, 0xc0a80001) + opts
+    return h[:10] + _S("!H", rfc1071(h)) + h[12:] + payload
+
+
+def j_udp(sp, dp, payload): return _S("!HHHH", sp, dp, min(65535, 8 + len(payload)), 0) + payload
+
+
+def j_tcp(payload, opts=b""): return _S("!HHIIBBHHH", 1000, 80, 1, 2, ((20 + len(opts)) // 4) << 4, 0x18, 8192, 0, 0) + opts + payload
+
+
+def j_icmp(t, c, rest): return _S("!BBH", t, c, rfc1071(_S("!BBH", t, c, 0) + rest)) + rest
+
+
+def j_ip6(nh, payload): return _S("!IHBB", (6 << 28) | 0x1234567, min(65535, len(payload)), nh, 64) + IP6_A + IP6_B + payload
+
+
+def j_icmp6(t, c, rest):
+    msg = _S("!BBH", t, c, 0) + rest
+    return _S("!BBH", t, c, icmp6_csum(IP6_A, IP6_B, msg)) + rest
+
+
+def j_mpls_stack(n, bos, first=16):
+    """n label stack entries without the bottom-of-stack bit (+ one with it when `bos`)"""
+    return b"".join(_S("!HBB", (first + i) & 0xffff, (i & 7) << 1, 64 - (i & 31)) for i in range(n)) + (_S("!HBB", 1, 1, 64) if bos else b"")
+
+
+def j_mpls(n, bos=False, tail=b"", typ=0x8847, vlans=0):
+    p = j_mpls_stack(n, bos) + tail
+    for i in range(vlans): p = _S("!HH", 0xa000 | (i + 1), typ if i == 0 else 0x8100) + p
+    return j_eth(0x8100 if vlans else typ, p)
+
+
+def j_snap_mpls(n, bos=False):
+    """802.3 + LLC/SNAP carrying an MPLS label stack (the 802.3 length field cannot announce more than 1500 octets; the stack may be longer)"""
+    p = j_mpls_stack(n, bos)
+    return MAC_B + MAC_A + _S("!H", min(1500, 8 + len(p))) + b"\xaa\xaa\x03\0\0\0\x88\x47" + p
+
+
+def j_vlan(n, inner=0x9999, tail=b"ab"):
+    return j_eth(0x8100, b"".join(_S("!HH", 1 + (i % 4000), 0x8100) for i in range(n - 1)) + _S("!HH", 7, inner) + tail)
+
+
+def j_ip6ext(n, kind, nh_last, payload):
+    """IPv6 with n 8-octet extension headers; kind = 0 hop-by-hop, 60 destination options, 43 routing, 44 fragment, "mix" """
+    ks = [kind] * n if kind != "mix" else [(0, 60, 43, 60, 44)[i % 5] for i in range(n)]
+    b = b""
+    for i, k in enumerate(ks):
+        nh = ks[i + 1] if i + 1 < n else nh_last
+        b += bytes([nh, 0]) + (_S("!HI", 0, i) if k == 44 else bytes([1, 4, 0, 0, 0, 0]))
+    return j_eth(0x86dd, j_ip6(ks[0] if n else nh_last, b + payload))
+
+
+def j_icmp_quote(n, types=(3,)):
+    """an ICMP error quoting a datagram that is an ICMP error quoting … (n levels; real quotes are short, nothing says they must be).
+    = j_ip4(1, j_icmp(t, 0, bytes(4) + p)) level by level, with the checksum of each level computed from the running sum of what it quotes
+    (the one's complement sum is additive over even-length blocks) instead of over the whole quote again."""
+    p = j_ip4(17, j_udp(1, 2, b"12345678"))
+    parts = [p]; sp = _s16(p); plen = len(p)
+    for i in range(n):
+        t = types[i % len(types)]
+        ic = _S("!BBH", t, 0, _fold((t << 8) + sp)) + bytes(4)
+        ih = j_ip4(1, b"")[:2] + _S("!H", min(65535, 20 + 8 + plen)) + j_ip4(1, b"")[4:10] + b"\0\0" + j_ip4(1, b"")[12:]
+        ih = ih[:10] + _S("!H", rfc1071(ih)) + ih[12:]
+        parts += [ic, ih]; sp += _s16(ic) + _s16(ih); plen += 28
+    return j_eth(0x0800, b"".join(reversed(parts)))
+
+
+def j_icmp6_quote(n, types=(1,)):
+    """the same for ICMPv6 errors (icmpv6.parse verifies the checksum: pseudo-header + message)"""
+    p = j_ip6(17, j_udp(1, 2, b"12345678"))
+    parts = [p]; sp = _s16(p); plen = len(p)
+    pseudo = _s16(IP6_A + IP6_B)
+    for i in range(n):
+        t = types[i % len(types)]
+        mlen = 8 + plen
+        ic = _S("!BBH", t, 0, _fold(pseudo + (mlen >> 16) + (mlen & 0xffff) + 58 + (t << 8) + sp)) + bytes(4)
+        ih = _S("!IHBB", (6 << 28) | 0x1234567, min(65535, mlen), 58, 64) + IP6_A + IP6_B
+        parts += [ic, ih]; sp += _s16(ic) + _s16(ih); plen += 48
+    return j_eth(0x86dd, b"".join(reversed(parts)))
+
+
+def j_gre(n, eth=False):
+    """IPv4 in GRE in IPv4 in GRE … (eth: transparent Ethernet bridging, 0x6558, at every level)"""
+    p = b"payload!"
+    for i in range(n):
+        p = j_ip4(47, _S("!HH", 0, 0x6558) + j_eth(0x0800 if i else 0x9999, p)) if eth else j_ip4(47, _S("!HH", 0, 0x0800) + p)
+    return j_eth(0x0800, p)
+
+
+def j_vxlan(n):
+    p = j_eth(0x9999, b"in")
+    for _ in range(n): p = j_eth(0x0800, j_ip4(17, j_udp(1, 4789, bytes([8, 0, 0, 0]) + _S("!I", 1 << 8) + p)))
+    return p
+
+
+def j_dhcp(n, vlen=1):
+    """BOOTP reply + n options (a mix of the classes unpackOptions knows, an unknown code and PAD octets), END"""
+    fixed = _S("!BBBBIHHIIII", 2, 1, 6, 0, 1, 0, 0, 0, 1, 2, 0) + MAC_A + bytes(10) + bytes(64) + bytes(128) + b"\x63\x82\x53\x63"
+    codes = (53, 1, 3, 6, 12, 15, 51, 54, 55, 61, 224, 0)
+    o = b"".join(b"\0" if codes[i % 12] == 0 else bytes([codes[i % 12], vlen]) + bytes([i & 0xff]) * vlen for i in range(n))
+    return j_eth(0x0800, j_ip4(17, j_udp(67, 68, fixed + o + b"\xff")))
+
+
+def j_lldp(n):
+    """the three mandatory TLVs + n optional ones of every class + End"""
+    b = _S("!H", (1 << 9) | 7) + b"\x04" + MAC_A + _S("!H", (2 << 9) | 2) + b"\x02\x37" + _S("!H", (3 << 9) | 2) + _S("!H", 120)
+    bodies = {7: b"\0\x04\0\x04", 127: b"\0\x12\x0f\x01ab", 8: b"\x05\x01\x0a\0\0\x01\x02\0\0\0\x01\0"}
+    for i in range(n):
+        t = (5, 6, 4, 7, 127, 8, 9)[i % 7]
+        body = bodies.get(t, b"x")
+        b += _S("!H", (t << 9) | len(body)) + body
+    return bytes.fromhex("0180c200000e") + MAC_A + b"\x88\xcc" + b + b"\0\0"
+
+
+def j_dns(n, how):
+    """q: n questions (names compressed); rr: n records of several types over the three sections; ptrchain: one name behind a chain of n
+    compression pointers; labels: ONE name of n one-octet labels"""
+    name = dname(b"a", b"example", b"com")
+    if how == "q":
+        b = _S("!HHHHHH", 1, 0x0100, n, 0, 0, 0) + b"".join((name if i == 0 else b"\xc0\x0c") + _S("!HH", 1, 1) for i in range(n))
+    elif how == "rr":
+        b = _S("!HHHHHH", 1, 0x8180, 1, n // 3, n // 3, n - 2 * (n // 3)) + name + _S("!HH", 1, 1)
+        kinds = ((1, b"\x0a\0\0\x01"), (5, b"\x01b\xc0\x0c"), (16, b"\x03txt"), (28, IP6_A), (15, b"\0\x0a\xc0\x0c"))
+        b += b"".join(b"\xc0\x0c" + _S("!HHIH", kinds[i % 5][0], 1, 300, len(kinds[i % 5][1])) + kinds[i % 5][1] for i in range(n))
+    elif how == "ptrchain":
+        # a TXT record whose data is n links (a one-octet label + a pointer to the link before; the first points at the question name), then
+        # an A record whose name is a pointer to the last link: ONE name behind a chain of n + 1 pointers (a pointer has 14 bits: n <= 4000)
+        b = _S("!HHHHHH", 1, 0x8180, 1, 2, 0, 0) + name + _S("!HH", 1, 1)
+        n = min(n, 4000)
+        b += b"\xc0\x0c" + _S("!HHIH", 16, 1, 300, 4 * n)
+        prev = 12
+        for i in range(n):
+            here = len(b)
+            b += b"\x01x" + _S("!H", 0xc000 | prev)
+            prev = here
+        b += _S("!H", 0xc000 | prev) + _S("!HHIH", 1, 1, 300, 4) + b"\x0a\0\0\x01"
+    else:
+        b = _S("!HHHHHH", 1, 0x0100, 1, 0, 0, 0) + b"\x01a" * n + b"\0" + _S("!HH", 1, 1)
+    return j_eth(0x0800, j_ip4(17, j_udp(1234, 53, b)))
+
+
+def j_rip(n):
+    return j_eth(0x0800, j_ip4(17, j_udp(520, 520, _S("!BBH", 2, 2, 0) + b"".join(_S("!HHIIII", 2, i & 0xffff, 0x0a000000 + i, 0xffffff00, 0, 1 + i % 16) for i in range(n)))))
+
+
+def j_igmp3(n):
+    g = b"".join(_S("!BBHI", 1 + i % 6, 0, i % 2, 0xe0000100 + i) + (_S("!I", 0x0a000001) if i % 2 else b"") for i in range(n))
+    b = _S("!BBHHH", 0x22, 0, 0, 0, n & 0xffff) + g
+    return j_eth(0x0800, j_ip4(2, b[:2] + _S("!H", igmp_csum(b)) + b[4:]))
+
+
+def j_nd(n, kind):
+    fx = {133: bytes(4), 134: bytes([64, 0xc0]) + _S("!HII", 1800, 0, 0), 135: bytes(4) + IP6_A, 136: b"\x60\0\0\0" + IP6_A}[kind]
+    units = (bytes([1, 1]) + MAC_A, bytes([5, 1, 0, 0]) + _S("!I", 1500), bytes([3, 4, 64, 0xc0]) + _S("!III", 1, 2, 0) + IP6_A, bytes([14, 1]) + bytes(6))
+    return j_eth(0x86dd, j_ip6(58, j_icmp6(kind, 0, fx + b"".join(units[i % 4] for i in range(n)))))
+
+
+def j_big(kind, n):
+    """one ordinary header chain in front of n octets of payload"""
+    pay = bytes((i * 7) & 0xff for i in range(n))
+    if kind == "udp": return j_eth(0x0800, j_ip4(17, j_udp(1, 2, pay)))
+    if kind == "tcp": return j_eth(0x0800, j_ip4(6, j_tcp(pay, b"\x01" * 36 + b"\x02\x04\x05\xb4"), opts=b"\x01" * 40))      # both option areas full
+    if kind == "echo": return j_eth(0x0800, j_ip4(1, j_icmp(8, 0, _S("!HH", 1, 2) + pay)))
+    if kind == "echo6": return j_eth(0x86dd, j_ip6(58, j_icmp6(128, 0, _S("!HH", 1, 2) + pay)))
+    if kind == "arp": return j_eth(0x0806, _S("!HHBBH", 1, 0x800, 6, 4, 1) + MAC_A + _S("!I", 1) + bytes(6) + _S("!I", 2) + pay)
+    if kind == "snap": return MAC_B + MAC_A + _S("!H", min(n + 8, 1500)) + b"\xaa\xaa\x03\0\0\0\x08\x00" + j_ip4(17, j_udp(1, 2, pay))
+    if kind == "eap": return j_eth(0x888e, _S("!BBH", 1, 0, min(65535, n + 5)) + _S("!BBH", 1, 5, min(65535, n + 5)) + b"\x01" + pay)
+    if kind == "frag": return j_eth(0x0800, j_ip4(17, pay, frag=0x2000 | 185))
+    return j_eth(0x9999, pay)
